@@ -22,7 +22,8 @@ TARGETS = ['pynetdicom2.pdu.PresentationDataValueItem.encode', 'pynetdicom2.pdu.
            'pynetdicom2.pdu.PDataTfPDU.decode', 'pynetdicom2.dsutils.encode', 'pynetdicom2.dsutils.encode_element',
            'pynetdicom2.dsutils.decode', 'pynetdicom2.dimsemessages.DIMSEMessage.set_length',
            'pynetdicom2.dimsemessages.DIMSEMessage.encode', 'pynetdicom2.dimsemessages.DIMSEMessage._fragments',
-           'pynetdicom2.dimsemessages.fragment', 'pynetdicom2.statuses.*', 'pynetdicom2.dsutils.*']
+           'pynetdicom2.dimsemessages.fragment', 'pynetdicom2.statuses.*', 'pynetdicom2.dsutils.*',
+           'pynetdicom2.userdataitems.*', 'pynetdicom2.pdu.*']
 
 
 def workloads(r, t):
@@ -38,6 +39,22 @@ def workloads(r, t):
         out.append(('pdata-encode', pdu.encode))
         raw = pdu.encode()
         out.append(('pdata-decode-encode', lambda raw=raw: P.PDataTfPDU.decode(raw).encode()))
+        # association requests announcing thread-specific maxima, titles and items
+        def request(t=t, k=k):
+            from pynetdicom2 import userdataitems as U
+            items = [P.ApplicationContextItem('1.2.840.10008.3.1.1.1'),
+                     P.PresentationContextItemRQ(1 + 2 * (k % 100), P.AbstractSyntaxSubItem('1.2.840.10008.1.%d' % (t + 1)),
+                                                 [P.TransferSyntaxSubItem('1.2.840.10008.1.2')]),
+                     P.UserInformationItem([U.MaximumLengthSubItem(1024 * (t + 1) + k),
+                                            U.ImplementationClassUIDSubItem('1.2.3.%d' % t),
+                                            U.ImplementationVersionNameSubItem('V%d_%d' % (t, k)),
+                                            U.UserIdentityNegotiationSubItem('user%d' % t, 'pw' * (k % 5 + 1))])]
+            return P.AAssociateRqPDU(called_ae_title='CALLED%d' % t, calling_ae_title='CALLING%d' % k,
+                                     variable_items=items).encode()
+        out.append(('associate-encode', request))
+        rq_raw = request()
+        out.append(('associate-decode-encode', lambda raw=rq_raw: P.AAssociateRqPDU.decode(raw).encode()))
+
         # command sets of thread-specific length
         def message(t=t, k=k):
             msg = D.CStoreRQMessage()
